@@ -609,17 +609,22 @@ func marshalInner(pj *simdjson.ParsedJson, docs []*ref.Node) (what string) {
 	}
 	positions := valuePositions(docs)
 	if len(positions) > 240 {
-		// very large documents: first 80, last 80 and 80 evenly spaced positions
+		// very large documents: reaching position i costs O(i), so only the first k, the last
+		// k and k evenly spaced positions are marshalled (k = 80, or 8 above 3000 positions)
+		k := 80
+		if len(positions) > 3000 {
+			k = 8
+		}
 		var sel []vpath
-		sel = append(sel, positions[:80]...)
-		step := (len(positions) - 160) / 80
+		sel = append(sel, positions[:k]...)
+		step := (len(positions) - 2*k) / k
 		if step < 1 {
 			step = 1
 		}
-		for i := 80; i < len(positions)-80; i += step {
+		for i := k; i < len(positions)-k; i += step {
 			sel = append(sel, positions[i])
 		}
-		sel = append(sel, positions[len(positions)-80:]...)
+		sel = append(sel, positions[len(positions)-k:]...)
 		positions = sel
 	}
 	for _, p := range positions {
